@@ -116,37 +116,8 @@ func cmdCheck(args []string) int {
 	}
 	opts := SolveOpts{Timeout: timeout, Thorough: *tier == "thorough", ScratchDir: scratch}
 
-	// attach regions of open findings to contract clauses (callers then assume the clause outside the region only)
-	for _, f := range ff.Findings {
-		if f.Status != "open" || f.Region == "" {
-			continue
-		}
-		re, err := ParseExpr(f.Region)
-		if err != nil {
-			fmt.Fprintf(os.Stderr, "govc: known finding %s: bad region: %v\n", f.ID, err)
-			return 2
-		}
-		for _, c := range prog.Contracts {
-			for _, cl := range c.Clauses {
-				if cl.Kind != "ensures" {
-					continue
-				}
-				name := fmt.Sprintf("%s/ensures%s(%s)", c.Key, cl.LabelString(), cl.Text)
-				for _, pat := range f.Obligations {
-					if matchObl(pat, name) {
-						cl.Region = re
-						if f.Observed != "" {
-							oe, err := ParseExpr(f.Observed)
-							if err != nil {
-								fmt.Fprintf(os.Stderr, "govc: known finding %s: bad observed: %v\n", f.ID, err)
-								return 2
-							}
-							cl.Observed = oe
-						}
-					}
-				}
-			}
-		}
+	if rc := attachRegions(prog, ff); rc != 0 {
+		return rc
 	}
 
 	// functions in the property's closure
@@ -248,6 +219,18 @@ func cmdCheck(args []string) int {
 				sel = append(sel, cs[0], cs[len(cs)-1])
 			}
 		}
+		// cover queries are checked on the quantifier-free part of the path condition: hypothesis-side
+		// quantifiers (callee ensures, invariants) make "sat" undecidable for the solvers, and they are
+		// consequences of proved contracts; ground contradictions (the usual vacuity bug) are still found
+		for _, cs := range byFunc {
+			for _, c := range cs {
+				var ground []*Term
+				for _, a := range c.Asserts {
+					ground = append(ground, c.x.tb.DropQuantifiers(a))
+				}
+				c.Asserts = ground
+			}
+		}
 		Discharge(sel, SolveOpts{Timeout: 10, ScratchDir: scratch}, runtime.NumCPU(), false)
 		okFunc := map[string]bool{}
 		for _, c := range sel {
@@ -270,6 +253,73 @@ func cmdCheck(args []string) int {
 				coverFail++
 				engineErrors = append(engineErrors, fmt.Sprintf("%s: vacuity: no reachable return site (contradictory requires?)", f))
 			}
+		}
+	}
+
+	// vacuity of implications: for every "A ==> B" ensures clause, A must be satisfiable (ground part of the
+	// path condition) at one return site at least; otherwise the clause was proved about nothing
+	vacuousClauses := 0
+	anteChecked := 0
+	{
+		byClause := map[string][]*Obligation{}
+		var order []string
+		for _, r := range reports {
+			if r.Res.Trusted || r.Res.Aborted != "" {
+				continue
+			}
+			for _, c := range r.Res.AnteCovers {
+				if _, ok := byClause[c.Name]; !ok {
+					order = append(order, c.Name)
+				}
+				byClause[c.Name] = append(byClause[c.Name], c)
+			}
+		}
+		// first round: one return site per clause (the last ones are usually the success paths), then the rest
+		pending := map[string]bool{}
+		var round []*Obligation
+		for _, n := range order {
+			cs := byClause[n]
+			pending[n] = true
+			round = append(round, cs[len(cs)-1])
+		}
+		prep := func(os []*Obligation) {
+			for _, c := range os {
+				var ground []*Term
+				for _, a := range c.Asserts {
+					ground = append(ground, c.x.tb.DropQuantifiers(a))
+				}
+				c.Asserts = ground
+			}
+		}
+		prep(round)
+		Discharge(round, SolveOpts{Timeout: 10, ScratchDir: scratch}, runtime.NumCPU(), false)
+		anteChecked += len(round)
+		for _, c := range round {
+			if c.Result.Status == "sat" {
+				delete(pending, c.Name)
+			}
+		}
+		var rest []*Obligation
+		for n := range pending {
+			cs := byClause[n]
+			rest = append(rest, cs[:len(cs)-1]...)
+		}
+		prep(rest)
+		Discharge(rest, SolveOpts{Timeout: 10, ScratchDir: scratch}, runtime.NumCPU(), false)
+		anteChecked += len(rest)
+		for _, c := range append(rest, round...) {
+			// only a definite "unsat" at every return site counts as vacuous (a busy machine must not raise alarms)
+			if c.Result != nil && c.Result.Status != "unsat" {
+				delete(pending, c.Name)
+			}
+		}
+		for n := range pending {
+			// a clause whose antecedent is unsatisfiable everywhere: allowed only when a known finding explains it
+			if hasOpenFinding(ff.Findings, prop, n) {
+				continue
+			}
+			vacuousClauses++
+			engineErrors = append(engineErrors, fmt.Sprintf("vacuity: antecedent never satisfiable at any return site: %s", n))
 		}
 	}
 
@@ -406,7 +456,7 @@ func cmdCheck(args []string) int {
 			"checker_cmd":              fmt.Sprintf("./check %s --tier %s", prop, *tier),
 			"trusted_base":             []string{"x/tools go/ssa v0.29.0", "govc symbolic executor and SMT encoding (/verif/govc)", "z3 5.1.0 (z3-new)", "cvc5 1.0.3", "z3 4.8.12", "/verif/spec/*.spec (transcribed from MODBUS Application Protocol V1.1b3 and MODBUS over Serial Line V1.02)"},
 			"functions_under_contract": fuc, "by_backend": byBackend, "solver_s": round2(solverS),
-			"return_sites_explored": paths, "covers_checked": coverChecked, "vacuity_failures": coverFail,
+			"return_sites_explored": paths, "covers_checked": coverChecked + anteChecked, "vacuity_failures": coverFail + vacuousClauses,
 			"known_findings": knownLines, "samples": samples,
 			"inlined_without_contract": sortedKeys(inlined), "contracts_used_at_call_sites": sortedKeys(used),
 			"unmodelled_calls": sortedKeys(unmodelled), "engine_warnings": sortedKeys(warnings),
@@ -443,4 +493,42 @@ func (x *Exec) regionCtx() *EvalCtx {
 	}
 	st := &State{mem: x.entryMem, ghost: map[string]SVal{}, cuts: map[string]bool{}}
 	return x.evalCtxFor(x.contract, st, st, nil, params, x.fn.Signature, nil, false)
+}
+
+// attachRegions attaches the regions of open findings to the matching contract clauses (callers then
+// assume a clause only outside its region, plus the recorded behaviour inside it).
+func attachRegions(prog *Program, ff *FindingsFile) int {
+	for _, f := range ff.Findings {
+		if f.Status != "open" || f.Region == "" {
+			continue
+		}
+		re, err := ParseExpr(f.Region)
+		if err != nil {
+			fmt.Fprintf(os.Stderr, "govc: known finding %s: bad region: %v\n", f.ID, err)
+			return 2
+		}
+		for _, c := range prog.Contracts {
+			for _, cl := range c.Clauses {
+				if cl.Kind != "ensures" {
+					continue
+				}
+				name := fmt.Sprintf("%s/ensures%s(%s)", c.Key, cl.LabelString(), cl.Text)
+				for _, pat := range f.Obligations {
+					if matchObl(pat, name) {
+						cl.Region = re
+						if f.Observed != "" {
+							oe, err := ParseExpr(f.Observed)
+							if err != nil {
+								fmt.Fprintf(os.Stderr, "govc: known finding %s: bad observed: %v\n", f.ID, err)
+								return 2
+							}
+							cl.Observed = oe
+						}
+					}
+				}
+			}
+		}
+	}
+
+	return 0
 }
